@@ -105,6 +105,11 @@ fn kind_of(f: &Field) -> RefKind {
 fn type_info_for(k: RefKind, i: usize) -> TypeInfo {
     TypeInfo { kind: kind_to_crate(k), coding: if i % 2 == 0 { StringCoding::ASCII } else { StringCoding::UTF8 }, has_variable_info: false, has_trace_info: false }
 }
+/// The flags of a given type are part of "its type": positions and list lengths mix them (a
+/// non-verbose payload carries no names whatever the flag says).
+fn type_info_flagged(k: RefKind, i: usize, len: usize) -> TypeInfo {
+    TypeInfo { has_variable_info: (i + len) % 2 == 1, has_trace_info: ((i + len) / 2) % 2 == 1, ..type_info_for(k, i) }
+}
 fn same_value_bits(a: &Value, b: &Value) -> bool {
     match (a, b) {
         (Value::F32(x), Value::F32(y)) => x.to_bits() == y.to_bits(),
@@ -127,7 +132,7 @@ fn judge_cuts(fields: &[Field], big: bool, sparse: bool, loc: &mut Local) {
         encode_field(f, big, &mut exact);
         boundaries.push(exact.len());
     }
-    let types: Vec<TypeInfo> = fields.iter().enumerate().map(|(i, f)| type_info_for(kind_of(f), i)).collect();
+    let types: Vec<TypeInfo> = fields.iter().enumerate().map(|(i, f)| type_info_flagged(kind_of(f), i, fields.len())).collect();
     let e = if big { Endianness::Big } else { Endianness::Little };
     let has_bad = fields.iter().any(|f| matches!(f, Field::BadStr(_)));
     let describe = || format!("types {:?}, {:?}", fields.iter().map(kind_of).collect::<Vec<_>>(), e);
@@ -253,6 +258,53 @@ pub fn run(ctx: &Ctx) {
         }
         judge(&fields, big, loc);
     }));
+    // every kind x every combination of the type's flags and string coding, alone and after another field
+    {
+        let kinds = supported_kinds();
+        let sp = Space::new(&[kinds.len(), 2, 2, 2, 2, 2]);
+        let s2 = sp.clone();
+        let kinds = &kinds;
+        ctx.run_family(Family::new("c13.type_flags", sp.size(), "every supported kind x {variable-info flag} x {trace-info flag} x {ASCII, UTF8 coding} in the given type x {alone, after a uint16} x both byte orders: the argument carries exactly the given type, the value of its field and no name / unit", move |i, loc| {
+            let c = s2.coords(i);
+            let k = kinds[c[0]];
+            let ti = TypeInfo { kind: kind_to_crate(k), coding: if c[3] == 0 { StringCoding::ASCII } else { StringCoding::UTF8 }, has_variable_info: c[1] == 1, has_trace_info: c[2] == 1 };
+            let f = match k {
+                RefKind::Str => Field::Val(k, RefValue::Str("h\u{e9}".into())),
+                RefKind::Raw => Field::Val(k, RefValue::Raw(vec![1, 2, 3])),
+                RefKind::Bool => Field::Val(k, RefValue::Bool(1)),
+                _ => Field::Val(k, default_value(k)),
+            };
+            let big = c[5] == 1;
+            let e = if big { Endianness::Big } else { Endianness::Little };
+            let mut data = vec![];
+            let mut types = vec![];
+            if c[4] == 1 {
+                encode_field(&Field::Val(RefKind::Uint(2), RefValue::U(0x1234, 2)), big, &mut data);
+                types.push(type_info_for(RefKind::Uint(2), 0));
+            }
+            encode_field(&f, big, &mut data);
+            types.push(ti.clone());
+            loc.evals += 1;
+            loc.transitions += 1;
+            loc.traces += 1;
+            loc.state(i + 0x7100_0000, true);
+            let details = || json!({"type": format!("{:?}", ti), "data_hex": hex_short(&data)});
+            match catch(|| construct_arguments(e, &types, &data)) {
+                Err(p) => loc.violation("construct_arguments panics", format!("construct_arguments panicked ({}) for type {:?}, data {}", p, ti, hex_short(&data)), details()),
+                Ok(Err(err)) => loc.violation("sufficient payload refused", format!("construct_arguments returned {:?} for type {:?}, data {}", err, ti, hex_short(&data)), details()),
+                Ok(Ok(args)) => {
+                    let expect = match &f {
+                        Field::Val(_, v) => value_to_crate(v),
+                        _ => unreachable!(),
+                    };
+                    match args.last() {
+                        Some(a) if args.len() == types.len() && a.type_info == ti && same_value_bits(&a.value, &expect) && a.name.is_none() && a.unit.is_none() && a.fixed_point.is_none() => loc.outcome("type carried as given"),
+                        _ => loc.violation("constructed argument does not carry the given type", format!("given type {:?}, data {}: got {:?}", ti, hex_short(&data), args.iter().map(|a| format!("{:?} value {:?} name {:?} unit {:?}", a.type_info, a.value, a.name, a.unit)).collect::<Vec<_>>()), details()),
+                    }
+                }
+            }
+        }));
+    }
     {
         let small: Vec<Field> = {
             let mut seen = std::collections::HashSet::new();
